@@ -246,6 +246,16 @@ Definition float_fragment (op : binop) (a b : value) : bool :=
   | _ => false
   end.
 
+(** the cases whose agreement is NOT proved in Coq but carried by the correspondence check and the extracted judge:
+    [/] on two integers (one rounding of the exact quotient vs. division of the converted operands) and the
+    comparison of an integer with a Float (exact vs. through a conversion) *)
+Definition By_correspondence_C04 (op : binop) (a b : value) : bool :=
+  match op with
+  | ODiv => is_int_like a && is_int_like b
+  | OGt | OGe | OLt | OLe | OEq | ONe => negb (Bool.eqb (is_vfloat a) (is_vfloat b))
+  | _ => false
+  end.
+
 (** * the class of inputs on which the evaluator is known not to be covered (known finding C04-float-pow):
       [**] with a Float operand is folded with libm powf/powi *)
 Definition is_float (v : value) : bool := match v with VFloat _ | VFloatUnk => true | _ => false end.
